@@ -703,3 +703,11 @@ package helper
 //@ stream emaSt(c stream, P int, m real)[k] = emaS(c, P, m, k)
 // the smoothing constant of an Ema value: Smoothing / (Period + 1)
 //@ macro emam(e) = e.Smoothing / (e.Period + 1)
+// pointwise product / difference of two streams
+//@ stream mulS(a stream, b stream)[j] = a[j] * b[j]
+//@ stream subS(a stream, b stream)[j] = a[j] - b[j]
+// a running total r (r[k] = r[k-1] + a[k], starting from 0) is the prefix sum of a
+//@ lemma cumsum_char(r stream, a stream, n int)
+//@ requires[C01] n >= 0 && (forall k :: 0 <= k && k <= n ==> r[k] == (k == 0 ? 0 : r[k-1]) + a[k])
+//@ ensures[C01] r[n] == psum(a, n + 1)
+//@ induction n
